@@ -10,7 +10,7 @@ RULE = ("every op form of the tensor catalogue and the nn catalogue (functional 
         "left at their float32 default for the mixed case) x operand dtype {float32,float64} x Python-scalar operands x every broadcasting "
         "pattern x result ranks incl. 0-d (full reductions, element indexing, reduced losses) x upstream gradient dtype {same, other}; result "
         "dtype must equal the operand dtype, the float32 result must agree with the float64 result to single precision, and after backward the "
-        "whole graph is walked: every .grad must have its tensor's shape and dtype. distinct key = (op, form, argclass, shape class, dtype, g "
+        "whole graph is walked: every .grad must have its tensor's shape and dtype; stateful layers are run through train -> eval histories and their outputs, running statistics and gradients must keep the layer dtype. distinct key = (op, form, argclass, shape class, dtype, g "
         "dtype); non-trivial = the case has broadcasting, a 0-d result, a scalar operand or a g of the other dtype")
 ASSUMPTIONS = ["single precision agreement = |y32 - y64| <= (64 + 8*log2 n) * eps32 * max(|y64|, y64(|x|), max|x|) (forward-error bound)",
                "for mixed-dtype operands (float64 input through float32 default layer parameters) only the gradient shape/dtype contract is asserted"]
